@@ -588,6 +588,152 @@ pub fn cases(quick: bool) -> Vec<Case> {
     v
 }
 
+/// a generator that hands out `first` and then the all-ones word
+pub struct FirstWordThenOnes {
+    pub first: u64,
+    pub used: bool,
+}
+impl rand::RngCore for FirstWordThenOnes {
+    fn next_u32(&mut self) -> u32 {
+        if self.used {
+            u32::MAX
+        } else {
+            self.used = true;
+            (self.first >> 32) as u32
+        }
+    }
+    fn next_u64(&mut self) -> u64 {
+        if self.used {
+            u64::MAX
+        } else {
+            self.used = true;
+            self.first
+        }
+    }
+    fn fill_bytes(&mut self, dst: &mut [u8]) {
+        dst.fill(0xff);
+    }
+}
+
+/// Locate the threshold of a coin that comes up "true" for small first words: the smallest first word (to
+/// within `resolution`) for which `probe` is false.  Err: the coin is not of that form.
+pub fn coin_threshold(mut probe: impl FnMut(u64) -> Option<bool>, resolution: u64) -> Result<u64, String> {
+    match (probe(0), probe(u64::MAX)) {
+        (Some(true), Some(false)) => {}
+        (Some(false), Some(false)) => return Ok(0),
+        (Some(true), Some(true)) => return Ok(u64::MAX),
+        other => return Err(format!("first word 0 and the all-ones word give {other:?}: not a coin that is true for small words")),
+    }
+    let (mut lo, mut hi) = (0u64, u64::MAX);
+    while hi - lo > resolution.max(1) {
+        let mid = lo + (hi - lo) / 2;
+        match probe(mid) {
+            Some(true) => lo = mid,
+            Some(false) => hi = mid,
+            None => return Err(format!("with the first word {mid:#x} something else than the coin's outcome changed")),
+        }
+    }
+    Ok(hi)
+}
+fn as_probability(t: u64) -> f64 {
+    if t == u64::MAX {
+        1.0
+    } else {
+        t as f64 / 18_446_744_073_709_551_616.0
+    }
+}
+
+/// Rates deep inside the domain (not on the 1/12 lattice of the exact-law cases): each configured rate is the
+/// probability of the first coin, located by bisection of its threshold.  `tolerance`: 2^-24 for coins drawn
+/// as f32, 2^-52 for `random_bool`.
+fn deep_rates(run: &mut Run) -> u64 {
+    use ec_core::operator::mutator::Mutator;
+    use ec_linear::mutator::with_rate::WithRate;
+    let mut n = 0u64;
+    let rates: Vec<f64> = vec![1e-7, 1e-5, 0.001, 0.01, 0.013, 0.05, 0.1, 0.2, 0.3, 1.0 / 3.0, 0.49, 0.5, 0.51, 2.0 / 3.0, 0.75, 0.9, 0.99, 0.999, 0.999_999];
+    let mut judge = |run: &mut Run, what: String, r: Result<u64, String>, want: f64, tol: f64| {
+        let bad = match r {
+            Err(e) => Some(("result", e)),
+            Ok(t) => {
+                let p = as_probability(t);
+                ((p - want).abs() > tol).then(|| ("rate", format!("the coin comes up for first words below {t:#x}, i.e. with probability {p:e}; configured: {want:e}")))
+            }
+        };
+        if let Some((k, w)) = bad {
+            run.violation(format!("deep-rate/{}/{k}", what.split(' ').next().unwrap_or("")), format!("{what}: {w}"), json!({"check":"C12","scenario":"deep-rates"}));
+        }
+    };
+    for r in &rates {
+        let (r, rf) = (*r, *r as f32);
+        // WithRate on three genes: the first gene's flip
+        for bits in [true, false] {
+            let t = mcx::guarded(|| {
+                coin_threshold(
+                    |w| {
+                        n += 1;
+                        let mut rng = FirstWordThenOnes { first: w, used: false };
+                        let out: Vec<bool> = if bits { WithRate::new(rf).mutate(Bitstring { bits: vec![false; 3] }, &mut rng).ok()?.bits } else { WithRate::new(rf).mutate(vec![false; 3], &mut rng).ok()? };
+                        (out.len() == 3 && !out[1] && !out[2]).then_some(out[0])
+                    },
+                    1 << 30,
+                )
+            })
+            .unwrap_or_else(Err);
+            judge(run, format!("WithRate({rf}) on a {} of 3 genes", if bits { "Bitstring" } else { "Vec<bool>" }), t, rf as f64, 1.0 / 16_777_216.0);
+        }
+        // random bits: the first bit
+        for which in 0..2 {
+            let t = mcx::guarded(|| {
+                coin_threshold(
+                    |w| {
+                        n += 1;
+                        let mut rng = FirstWordThenOnes { first: w, used: false };
+                        let b: Vec<bool> = if which == 0 { Bitstring::random_with_probability(3, r, &mut rng).bits } else { BoolGenerator::new(r).into_collection_generator(3).sample(&mut rng) };
+                        (b.len() == 3 && !b[1] && !b[2]).then_some(b[0])
+                    },
+                    1 << 8,
+                )
+            })
+            .unwrap_or_else(Err);
+            judge(run, format!("{}({r}) first of 3 bits", if which == 0 { "Bitstring::random_with_probability" } else { "BoolGenerator" }), t, r, 1e-15);
+        }
+        // gene generator: the close marker
+        for nn in [1usize, 3, 7] {
+            let t = mcx::guarded(|| {
+                coin_threshold(
+                    |w| {
+                        n += 1;
+                        let mut rng = FirstWordThenOnes { first: w, used: false };
+                        let dist = IntoDistribution::<PushInstruction>::into_distribution(instr_set(nn)).ok()?;
+                        Some(matches!(GeneGenerator::new(rf, dist).sample(&mut rng), PushGene::Close))
+                    },
+                    1 << 30,
+                )
+            })
+            .unwrap_or_else(Err);
+            judge(run, format!("GeneGenerator::new({rf}, {nn} instructions) close marker"), t, rf as f64, 1.0 / 16_777_216.0);
+        }
+    }
+    // the default close probability 1/(n+1) for many instruction counts
+    for nn in (1usize..=40).chain([63, 64, 99, 100, 255, 256, 1000, 4095, 65_535]) {
+        let t = mcx::guarded(|| {
+            coin_threshold(
+                |w| {
+                    n += 1;
+                    let mut rng = FirstWordThenOnes { first: w, used: false };
+                    let dist = IntoDistribution::<PushInstruction>::into_distribution(instr_set(nn)).ok()?;
+                    Some(matches!(GeneGenerator::with_uniform_close_probability(dist).sample(&mut rng), PushGene::Close))
+                },
+                1 << 30,
+            )
+        })
+        .unwrap_or_else(Err);
+        judge(run, format!("GeneGenerator::with_uniform_close_probability({nn} instructions) close marker"), t, 1.0 / (nn as f64 + 1.0), 1.0 / 16_777_216.0);
+    }
+    run.bound("deep_rates", json!(rates));
+    n
+}
+
 /// The rate of the length-scaled flip on genomes far too long for any tree: the first gene's coin is a
 /// threshold on its word (flip iff word < T), so T is located by bisection over the word - every later gene
 /// is handed the all-ones word and keeps its value - and T / 2^64 must be 1/length as exactly as a 24-bit
@@ -682,7 +828,7 @@ pub fn run(run: &mut Run) {
         run.machinery(format!("calibration failed: {e}"));
         return;
     }
-    let t = length_scaled_threshold(run);
+    let t = length_scaled_threshold(run) + deep_rates(run);
     run.evaluations += t;
     run.transitions += t;
     let cs = cases(run.quick());
@@ -715,9 +861,10 @@ pub fn run(run: &mut Run) {
 }
 
 pub fn replay(v: &Value) -> bool {
-    if v["scenario"] == json!("length-scaled-threshold") {
+    if v["scenario"] == json!("length-scaled-threshold") || v["scenario"] == json!("deep-rates") {
         let mut r = Run::new("C12", "quick");
         length_scaled_threshold(&mut r);
+        deep_rates(&mut r);
         let g = r.violations.lock().unwrap();
         for (k, x) in g.iter() {
             println!("MISMATCH [{k}]: {}", x.what);
